@@ -1,4 +1,5 @@
 import BufModel.Bucket
+import BufModel.Archive
 import Driver.Util
 /-
   Line protocol for bucket histories (C13, C14):
@@ -102,29 +103,23 @@ def handleHist (layers init ops : String) : String :=
   | _, _ => "bad-op"
 
 /-- untar <strip> <hexname>=<content>,... : entries in archive order; a rejected entry aborts
-    (earlier entries stay written); skipped entries are ignored. Regular files only. -/
+    (earlier entries stay written); skipped entries are ignored. Regular files only.
+    Runs `BufModel.Archive.extractInto` (the Untar loop; for regular entries without "._" names
+    the Unzip loop behaves identically). -/
 def handleUntar (strip entries : String) : String :=
   match strip.toNat? with
   | none => "bad-op"
   | some n =>
     let es := if entries = "-" then [] else entries.splitOn ","
-    let rec go : List String → Mem → String × Mem
-      | [], m => ("ok", m)
-      | e :: rest, m =>
-        match e.splitOn "=" with
-        | [k, v] =>
-          match hexDecode k with
-          | none => ("bad-op", m)
-          | some name =>
-            match unmapArchivePath (s2l name) n (fun _ => true) with
-            | .error er => (errS er, m)
-            | .ok none => go rest m
-            | .ok (some p) =>
-              match memPut m p (if v = "-" then "" else v) with
-              | .ok m' => go rest m'
-              | .error er => (errS er, m)
-        | _ => ("bad-op", m)
-    let (res, m) := go es []
-    res ++ "|" ++ dump m
+    let parsed : Option BufModel.Archive.Archive := es.mapM fun e =>
+      match e.splitOn "=" with
+      | [k, v] => (hexDecode k).map fun name =>
+          { name := s2l name, content := (if v = "-" then "" else v), kind := .reg }
+      | _ => none
+    match parsed with
+    | none => "bad-op"
+    | some a =>
+      let (res, m) := BufModel.Archive.extractInto .tar n (fun _ => true) 0 a []
+      (match res with | none => "ok" | some er => errS er) ++ "|" ++ dump m
 
 end Driver.Bucket
